@@ -427,8 +427,12 @@ def stepWorld (cfg : WCfg) (w : World) : Ev → World
   | .expire s k =>
     let st := w.site s
     let (store', blocks) := activeExpire (cfg.redis s) st.now st.store k
-    let w1 := w.setSite s { st with store := store', stream := st.stream ++ tagIds w.nextId blocks }
-    { w1 with nextId := w.nextId + blocks.length }
+    if isNamespaceKey k then
+      -- a bookkeeping key (a marker) expiring: not a write of this site's clients
+      w.setSite s { st with store := store', stream := st.stream ++ blocks.map (fun b => ⟨.book, b⟩) }
+    else
+      let w1 := w.setSite s { st with store := store', stream := st.stream ++ tagIds w.nextId blocks }
+      { w1 with nextId := w.nextId + blocks.length }
   | .link src arg =>
     let l := w.link src
     if l.halted.isSome then w
